@@ -11,7 +11,7 @@
    The documented right-hand side (FH_proofs.bell), for x = xmin + i and y = xmin + j:
      bell t next i j = (if x < y then c_t*(y-x) + K_t else 0) + ( L_t[j] + g_t * sum_k pr_t[k] * next[clamp(y - (dmin+k))] )
    where clamp pushes y - d back into [xmin, xmax] (the code's d_eff). *)
-From SV Require Import Base.Qx Alg.FH Alg.FH_proofs.
+From SV Require Import Base.Qx Alg.FH Alg.FH_proofs Alg.FHMyopic_proofs.
 
 Section C12.
 Variables (T : nat) (xmin : Z) (n : nat) (dmin : Z) (pr L : nat -> list Q) (c K g : nat -> Q) (term : Z -> Q).
@@ -92,13 +92,103 @@ Proof. exact (restart_sound T xmin dmin pr L c K g term fuel n n' o). Qed.
 Theorem C12_model_arith x y : qr x == x /\ qadd x y == x + y /\ qlt x y = qltb x y.
 Proof. exact (conj (qr_correct x) (conj (qadd_correct x y) (qlt_eq x y))). Qed.
 
-(* NOT PROVED (oracle only, py/props/c12.py): the myopic bounds of finite_horizon.myopic_bounds (Veinott 1966) bracket the
-   optimal order-up-to levels to within one grid unit.  Sunder/Sover are the function's outputs (brentq / norm.ppf: oracles);
-   the statement needs normal demand, K_t >= gamma_t K_{t+1}, S_underbar_t <= S_overbar_{t+1} and a grid/demand truncation
-   that does not bind. *)
-Definition myopic_bounds_bracket_statement (T : nat) xmin n dmin pr L c K g term (Sunder Sover : nat -> Q) : Prop :=
-  forall o, fh_opt T xmin n dmin pr L c K g term = FHOk o -> forall t, (1 <= t <= T)%nat ->
-    Sunder t - 1 <= inject_Z (S_ o t) /\ inject_Z (S_ o t) <= Sover t + 1.
+(* Myopic bounds (Alg/FHMyopic_proofs.v). The model's own myopic levels: [Gmy t] = the one-period myopic cost on the grid (c_t y + L_t(y) - gamma_t c_{t+1} E[y - D_t],
+   with the DP's clamping; terminal cost in the last period), [Sunder_idx t] = its first minimiser, [Sover_idx t] = the last grid point whose myopic cost is within
+   gamma_t K_{t+1} of the minimum. PROVED for every horizon, grid, demand table and cost data:
+   - UPPER bound S_t <= S_overbar_t with no structural hypothesis at all (non-negative K, gamma, probabilities);
+   - LOWER bound S_underbar_t <= S_t (or the DP does not order in its lowest state) when the myopic cost is non-increasing up to its minimiser and the myopic levels
+     rise (shifted by the smallest demand) on the tail t..T — decidable conditions [nonneg_okb], [lower_okb];
+   - hence the bracket, with NO grid-unit slack, and exactness of the myopic policy when S_overbar = S_underbar;
+   - for bounds GIVEN from outside (the outputs of finite_horizon.myopic_bounds: scipy root finding, an oracle) the bracket with one grid unit of slack holds as soon as
+     they are within one grid unit of the model's levels (a numeric comparison).
+   The clause as first stated here (arbitrary Sunder/Sover, no hypotheses) is false; and Veinott-type conditions of the form K_t >= gamma_t K_{t+1},
+   S_underbar_t <= S_overbar_{t+1} are NOT sufficient for the lower bound for arbitrary demand tables (FHMyopic_proofs.nearly_rising_insufficient: a 3-period instance
+   with demand {0,4} in period 1) — rising myopic levels are. *)
+Theorem C12_myopic_upper_bound :
+  forall (T : nat) (xmin : Z) (n : nat) (dmin : Z)
+           (pr L : nat -> list Q) (c K g : nat -> Q) 
+           (term : Z -> Q) (o : fh_out) (t : nat),
+         fh_opt T xmin n dmin pr L c K g term = FHOk o ->
+         (1 <= t <= T)%nat ->
+         (forall u : nat, (1 <= u <= T)%nat -> 0 <= K u) ->
+         0 <= g t ->
+         Forall (fun p : Q => 0 <= p) (pr t) ->
+         (S_ o t <= xz xmin (Sover_idx T xmin n dmin pr L c K g term t))%Z.
+Proof. exact myopic_upper. Qed.
+Theorem C12_myopic_lower_bound :
+  forall (T : nat) (xmin : Z) (n : nat) (dmin : Z)
+           (pr L : nat -> list Q) (c K g : nat -> Q) 
+           (term : Z -> Q) (o : fh_out) (t : nat),
+         fh_opt T xmin n dmin pr L c K g term = FHOk o ->
+         (1 <= t <= T)%nat ->
+         nonneg_okb T pr K g = true ->
+         lower_okb T xmin n dmin pr L c g term t = true ->
+         S_ o t = xmin \/
+         (xz xmin (Sunder_idx T xmin n dmin pr L c g term t) <= S_ o t)%Z.
+Proof. exact myopic_lower. Qed.
+Theorem C12_myopic_bracket :
+  forall (T : nat) (xmin : Z) (n : nat) (dmin : Z)
+           (pr L : nat -> list Q) (c K g : nat -> Q) 
+           (term : Z -> Q) (o : fh_out) (t : nat),
+         fh_opt T xmin n dmin pr L c K g term = FHOk o ->
+         (1 <= t <= T)%nat ->
+         nonneg_okb T pr K g = true ->
+         lower_okb T xmin n dmin pr L c g term t = true ->
+         S_ o t <> xmin ->
+         SunderQ T xmin n dmin pr L c g term t <= inject_Z (S_ o t) <=
+         SoverQ T xmin n dmin pr L c K g term t.
+Proof. exact myopic_bounds_bracket_corrected. Qed.
+Theorem C12_myopic_policy_exact :
+  forall (T : nat) (xmin : Z) (n : nat) (dmin : Z)
+           (pr L : nat -> list Q) (c K g : nat -> Q) 
+           (term : Z -> Q) (o : fh_out) (t : nat),
+         fh_opt T xmin n dmin pr L c K g term = FHOk o ->
+         (1 <= t <= T)%nat ->
+         nonneg_okb T pr K g = true ->
+         lower_okb T xmin n dmin pr L c g term t = true ->
+         S_ o t <> xmin ->
+         Sover_idx T xmin n dmin pr L c K g term t =
+         Sunder_idx T xmin n dmin pr L c g term t ->
+         S_ o t = xz xmin (Sunder_idx T xmin n dmin pr L c g term t).
+Proof. exact myopic_exact. Qed.
+Theorem C12_myopic_bracket_for_given_bounds :
+  forall (T : nat) (xmin : Z) (n : nat) (dmin : Z)
+           (pr L : nat -> list Q) (c K g : nat -> Q) 
+           (term : Z -> Q) (Sunder Sover : nat -> Q),
+         nonneg_okb T pr K g = true ->
+         (forall t : nat,
+          (1 <= t <= T)%nat -> lower_okb T xmin n dmin pr L c g term t = true) ->
+         (forall (o : fh_out) (t : nat),
+          fh_opt T xmin n dmin pr L c K g term = FHOk o ->
+          (1 <= t <= T)%nat -> S_ o t <> xmin) ->
+         (forall t : nat,
+          (1 <= t <= T)%nat ->
+          Sunder t - 1 <= SunderQ T xmin n dmin pr L c g term t /\
+          SoverQ T xmin n dmin pr L c K g term t <= Sover t + 1) ->
+         myopic_bounds_bracket_statement T xmin n dmin pr L c K g term Sunder
+           Sover.
+Proof. exact myopic_bounds_bracket_statement_corrected. Qed.
+Theorem C12_myopic_upper_half_for_given_bounds :
+  forall (T : nat) (xmin : Z) (n : nat) (dmin : Z)
+           (pr L : nat -> list Q) (c K g : nat -> Q) 
+           (term : Z -> Q) (Sover : nat -> Q),
+         nonneg_okb T pr K g = true ->
+         (forall t : nat,
+          (1 <= t <= T)%nat ->
+          SoverQ T xmin n dmin pr L c K g term t <= Sover t + 1) ->
+         forall o : fh_out,
+         fh_opt T xmin n dmin pr L c K g term = FHOk o ->
+         forall t : nat, (1 <= t <= T)%nat -> inject_Z (S_ o t) <= Sover t + 1.
+Proof. exact myopic_bounds_upper_half. Qed.
+Theorem C12_myopic_bracket_as_first_stated_is_false :
+  exists
+           (T : nat) (xmin : Z) (n : nat) (dmin : Z) 
+         (pr L : nat -> list Q) (c K g : nat -> Q) (term : Z -> Q) 
+         (Sunder Sover : nat -> Q),
+           ~
+           myopic_bounds_bracket_statement T xmin n dmin pr L c K g term Sunder
+             Sover.
+Proof. exact myopic_bounds_bracket_statement_refuted. Qed.
 
 (* non-vacuity: a concrete 3-period instance (grid -3..8, demand 0/1/2 w.p. 1/4,1/2,1/4, K = 3, gamma = 9/10) completes with
    s_1 < S_1; its evaluation reproduces it; with K = 0 it has s = S; on the grid -3..1 it aborts and the doubling loop ends
@@ -135,3 +225,10 @@ Print Assumptions C12_completed_pass_is_interior.
 Print Assumptions C12_T1_total.
 Print Assumptions C12_restart_sound.
 Print Assumptions C12_model_arith.
+Print Assumptions C12_myopic_upper_bound.
+Print Assumptions C12_myopic_lower_bound.
+Print Assumptions C12_myopic_bracket.
+Print Assumptions C12_myopic_policy_exact.
+Print Assumptions C12_myopic_bracket_for_given_bounds.
+Print Assumptions C12_myopic_upper_half_for_given_bounds.
+Print Assumptions C12_myopic_bracket_as_first_stated_is_false.
